@@ -8,6 +8,7 @@ import OV.Lemmas.C05
 import OV.Lemmas.C05Shape
 import OV.Lemmas.C05Algebra
 import OV.Lemmas.C05Matmul
+import OV.Lemmas.C05Expand
 import Mathlib.Order.MinMax
 import Mathlib.Tactic.Order
 import Mathlib.Tactic.SplitIfs
@@ -42,6 +43,26 @@ theorem exported_rules_covered :
 literals, `_allow_other_inputs/attributes`) and the `remove_nodes` flag the models were transcribed against. -/
 theorem skeletons_as_modelled :
     ∀ r ∈ OV.Gen.C05.rows, r.source = "fusion" ∨ Table.lookup r.key = some (r.skeleton, r.removeNodes) := by
+  decide +kernel
+
+/-- Every rule's **condition function** still makes the decisions the models were transcribed from: the hash of its decision
+tokens (comparison and boolean operators, literal constants, names of called helpers — followed into module-level helper
+functions — in source order; messages and variable names excluded) equals the recorded one.  A changed threshold, comparison
+operator (`>` vs `>=`), default value, membership test or dropped branch breaks this obligation; the harness then prints the
+token diff and searches for a failing input. -/
+theorem conditions_as_modelled :
+    ∀ r ∈ OV.Gen.C05.rows, r.source = "fusion" ∨ Table.lookupCond r.key = some r.condHash := by
+  decide +kernel
+
+/-- Literal data the condition functions decide with, read from the live objects of /repo, equal the models' tables:
+`CastCast._allowed_type2_type3`, `_BROADCAST_BINARY_OPS`, `_INT64_MAX`, the `(operand, expected, rtol)` triples of the
+hard-sigmoid check, `LAYER_NORM_COMPUTE_TYPES`. -/
+theorem condition_data_as_modelled :
+    OV.Gen.C05.castCastAllowed = Linalg.castCastAllowed ∧
+    OV.Gen.C05.broadcastBinaryOps = Linalg.broadcastBinaryOps ∧
+    OV.Gen.C05.int64Max = Shape.int64Max ∧
+    OV.Gen.C05.hardSigmoidConstants = More.hardSigConstants ∧
+    OV.Gen.C05.layerNormComputeTypes = More.layerNormComputeTypes := by
   decide +kernel
 
 /-- No rule is claimed both ways. -/
@@ -512,12 +533,20 @@ theorem no_op_cast_sound {V : Type} (S : CastSem V) (src dst : Nat) (h : noOpCas
 theorem no_op_cast_needs_known_dtype (dst : Nat) : noOpCastCheck none dst = false := by
   unfold noOpCastCheck; simp
 
-/-- `cast_cast` fires exactly for second hops FLOAT→FLOAT16 and FLOAT→BFLOAT16. -/
-theorem cast_cast_fires_iff (t2 t3 : Nat) :
-    castCastCheck t2 t3 = true ↔ (t2 = FLOAT ∧ (t3 = FLOAT16 ∨ t3 = BFLOAT16)) := by
+/-- **`cast_cast`** (after commit e86ba81) fires exactly when the source type is exactly representable in FLOAT and the second hop
+is FLOAT→FLOAT16 or FLOAT→BFLOAT16; an unknown source type never fires. -/
+theorem cast_cast_fires_iff (x : Option Nat) (t2 t3 : Nat) :
+    castCastCheck x t2 t3 = true ↔
+      (∃ t, x = some t ∧ t ∈ exactInFloat) ∧ (t2 = FLOAT ∧ (t3 = FLOAT16 ∨ t3 = BFLOAT16)) := by
   unfold castCastCheck castCastAllowed FLOAT FLOAT16 BFLOAT16
-  simp only [List.contains_cons, List.contains_nil, Bool.or_false, Bool.or_eq_true, beq_iff_eq, Prod.mk.injEq]
-  omega
+  cases x with
+  | none => simp
+  | some t =>
+    simp only [Bool.and_eq_true, List.contains_iff_mem, List.mem_cons, List.mem_nil_iff, or_false, Prod.mk.injEq,
+      Option.some.injEq, exists_eq_left']
+    constructor
+    · rintro ⟨h1, h2⟩; refine ⟨h1, ?_⟩; omega
+    · rintro ⟨h1, h2⟩; refine ⟨h1, ?_⟩; omega
 
 /-- Rounding `n` to a multiple of `2^sh`, ties to even: the integer core of a float narrowing at a fixed exponent. -/
 def roundAt (sh : Nat) (n : Nat) : Nat :=
@@ -526,17 +555,20 @@ def roundAt (sh : Nat) (n : Nat) : Nat :=
   let half := 2 ^ sh / 2
   (if r > half ∨ (r = half ∧ q % 2 = 1) then q + 1 else q) * 2 ^ sh
 
-/-- `cast_cast` (`Cast(Cast(x, FLOAT), FLOAT16) → Cast(x, FLOAT16)`): when the first hop is exact
-(the source value is representable in FLOAT — hypothesis `hexact`), dropping it changes nothing. -/
-theorem cast_cast_sound_partial (sh1 sh2 n : Nat) (hexact : roundAt sh1 n = n) :
+/-- `cast_cast` (`Cast(Cast(x, FLOAT), FLOAT16) → Cast(x, FLOAT16)`): when the first hop is exact — which is what membership of
+the source type in `exactInFloat` means, and what `check` now demands — dropping it changes nothing (integer rounding model). -/
+theorem cast_cast_sound (sh1 sh2 n : Nat) (hexact : roundAt sh1 n = n) :
     roundAt sh2 (roundAt sh1 n) = roundAt sh2 n := by rw [hexact]
 
-/-- Finding C05-N7: for a DOUBLE source the first hop is not exact and rounding twice differs from rounding once:
-`n = 2^30 + 2^19 + 1` (the double `1 + 2^-11 + 2^-30` scaled by `2^30`), FLOAT keeps 24 bits (`sh = 7`),
-FLOAT16 11 bits (`sh = 20`): twice → `2^30` (1.0), once → `2^30 + 2^20` (1.0009765625). -/
-theorem cast_cast_double_rounding_refuted :
-    castCastCheck FLOAT FLOAT16 = true ∧
-    roundAt 20 (roundAt 7 (2 ^ 30 + 2 ^ 19 + 1)) = 2 ^ 30 ∧ roundAt 20 (2 ^ 30 + 2 ^ 19 + 1) = 2 ^ 30 + 2 ^ 20 := by
+/-- Documentation of finding C05-N7 (fixed): for a DOUBLE source the first hop is not exact and rounding twice differs from
+rounding once: `n = 2^30 + 2^19 + 1` (the double `1 + 2^-11 + 2^-30` scaled by `2^30`), FLOAT keeps 24 bits (`sh = 7`), FLOAT16 11
+bits (`sh = 20`): twice → `2^30` (1.0), once → `2^30 + 2^20` (1.0009765625).  The pre-fix check passed; the rule now refuses DOUBLE
+(and INT32/INT64/UINT32/UINT64) sources. -/
+theorem cast_cast_prefix_refuted :
+    castCastCheckPrefix FLOAT FLOAT16 = true ∧
+    roundAt 20 (roundAt 7 (2 ^ 30 + 2 ^ 19 + 1)) = 2 ^ 30 ∧ roundAt 20 (2 ^ 30 + 2 ^ 19 + 1) = 2 ^ 30 + 2 ^ 20 ∧
+    castCastCheck (some DOUBLE) FLOAT FLOAT16 = false ∧ castCastCheck (some 7) FLOAT FLOAT16 = false ∧
+    castCastCheck (some FLOAT16) FLOAT FLOAT16 = true := by
   decide +kernel
 
 end Cast
@@ -758,20 +790,23 @@ end OrderedField
 /-- The matched pipeline on ℚ with the constants the match binds. -/
 def HardSig.lhs (cmin cmax bias div x : Rat) : Rat := min (max (x + bias) cmin) cmax / div
 
-/-- **hard-sigmoid / hard-swish fusions** (`_HardSigmoidFusionBase.check` passes and the constants are *exactly* 0, 6, 3, 6):
-the pipeline equals `HardSigmoid(1/6, 1/2)`.  `_partial`: `check` only demands `isclose(·, rel_tol=1e-4)` (finding C05-N8). -/
-theorem hardsigmoid_fusion_sound_partial (p : HardSig) (_h : p.check = true) (hex : p.exact = true) (x : Rat) :
-    HardSig.lhs 0 6 3 6 x = hardSigmoid (1 / 6) (1 / 2) x ∧
-    p.clipMin = some 0 ∧ p.clipMax = some 6 ∧ p.bias = some 3 ∧ p.divisor = some 6 := by
-  unfold HardSig.exact at hex
-  simp only [Bool.and_eq_true, beq_iff_eq] at hex
-  exact ⟨hardsigmoid_identity x, hex.1.1.1, hex.1.1.2, hex.1.2, hex.2⟩
+/-- **hard-sigmoid / hard-swish fusions** (after commit 9b9326e: `_HardSigmoidFusionBase.check` compares exactly): whenever
+`check` passes, the matched pipeline `Clip(x + bias, cmin, cmax) / div` with the constants the match binds equals
+`HardSigmoid(1/6, 1/2)(x)` for every `x` (and `· * x` gives HardSwish by `hardswish_identity`). -/
+theorem hardsigmoid_fusion_sound (p : HardSig) (h : p.check = true) (x : Rat) :
+    ∃ cmin cmax bias div, p.clipMin = some cmin ∧ p.clipMax = some cmax ∧ p.bias = some bias ∧ p.divisor = some div ∧
+      HardSig.lhs cmin cmax bias div x = hardSigmoid (1 / 6) (1 / 2) x := by
+  unfold HardSig.check at h
+  simp only [Bool.and_eq_true, beq_iff_eq] at h
+  exact ⟨0, 6, 3, 6, h.1.1.1, h.1.1.2, h.1.2, h.2, hardsigmoid_identity x⟩
 
-/-- Finding C05-N8: the rule fires for `bias = 3.0002` and then `Clip(0 + 3.0002, 0, 6)/6 ≠ HardSigmoid(1/6,1/2)(0) = 1/2`. -/
-theorem hardsigmoid_fusion_full_refuted :
-    (HardSig.check { clipMin := some 0, clipMax := some 6, bias := some (30002 / 10000), divisor := some 6 }) = true ∧
-    HardSig.lhs 0 6 (30002 / 10000) 6 0 ≠ hardSigmoid (1 / 6) (1 / 2) (0 : Rat) := by
-  refine ⟨by decide +kernel, ?_⟩
+/-- Documentation of finding C05-N8 (fixed): the pre-fix check (`rel_tol = 1e-4`) passed for `bias = 3.0002`, and then
+`Clip(0 + 3.0002, 0, 6)/6 ≠ HardSigmoid(1/6,1/2)(0) = 1/2`; the check now refuses it. -/
+theorem hardsigmoid_fusion_prefix_refuted :
+    (HardSig.checkPrefix { clipMin := some 0, clipMax := some 6, bias := some (30002 / 10000), divisor := some 6 }) = true ∧
+    HardSig.lhs 0 6 (30002 / 10000) 6 0 ≠ hardSigmoid (1 / 6) (1 / 2) (0 : Rat) ∧
+    (HardSig.check { clipMin := some 0, clipMax := some 6, bias := some (30002 / 10000), divisor := some 6 }) = false := by
+  refine ⟨by decide +kernel, ?_, by decide +kernel⟩
   unfold HardSig.lhs hardSigmoid
   norm_num [max_def, min_def]
 
@@ -781,7 +816,7 @@ theorem absR_eq (q : Rat) : absR q = |q| := by
   · rw [abs_of_neg hq]
   · rw [abs_of_nonneg (not_lt.mp hq)]
 
-/-- The zero lower bound cannot be approximate: `isclose(v, 0.0, rel_tol=1e-4)` has `abs_tol = 0`. -/
+/-- (pre-fix tolerance test) the zero lower bound could never be approximate: `isclose(v, 0.0, rel_tol=1e-4)` has `abs_tol = 0`. -/
 theorem hardsigmoid_clip_min_exact (v : Rat) (h : closeTo (some v) 0 = true) : v = 0 := by
   by_contra hv
   have hpos : 0 < |v| := abs_pos.mpr hv
@@ -990,6 +1025,75 @@ theorem gemm_to_matmul_add_prefix_refuted :
   simp [Finset.sum_range_succ]
 
 end More
+
+/-! ## Expand before a broadcasting binary op (38 rule objects; strategy 1: constant target shape, static annotations) -/
+section ExpandBinary
+open OV.C05.Linalg OV.C05.Shape OV.Lemmas.C05Expand
+
+/-- **`expand_before_binary_op_rules`, shapes** — for all ranks and dimension sizes (0 and 1 included): when the guard
+`_check_expand_removable` (strategy 1) passes and the original `Op(Expand(x, e), y)` is valid with result shape `r`, the
+rewritten `Op(x, y)` is valid with the same result shape.  `_partial`: static annotations and a constant target only
+(strategies 2/3 and symbolic dims are C09's `expand_removable_sound`; here they are decided by correspondence + numeric search). -/
+theorem expand_before_binary_shape_sound_partial (x y : List Nat) (e : List Int) (t r : List Nat)
+    (hguard : expandRemovableConst (some (x.map Dim.known)) (some (y.map Dim.known)) e = true)
+    (ht : specBroadcast x (e.map Int.toNat) = some t) (hr : specBroadcast t y = some r) :
+    specBroadcast x y = some r :=
+  expand_removal_shape_sound' x y e t r hguard ht hr
+
+/-- … and conversely the original is valid whenever the rewritten op is (no failure is masked, none introduced). -/
+theorem expand_before_binary_shape_iff (x y : List Nat) (e : List Int) (en : List Nat) (r : List Nat)
+    (hguard : expandRemovableConst (some (x.map Dim.known)) (some (y.map Dim.known)) e = true) (he : e = en.map Int.ofNat) :
+    (∃ t, specBroadcast x en = some t ∧ specBroadcast t y = some r) ↔ specBroadcast x y = some r :=
+  expand_removal_shape_iff x y e en r hguard he
+
+/-- **values**: at every output coordinate, `Op(Expand(X, e), Y)` and `Op(X, Y)` read the same elements of `X` and `Y`
+(tensors as functions of right-aligned coordinates, broadcasting = "coordinate 0 on a size-1 axis"), for every elementwise `f`. -/
+theorem expand_before_binary_value_sound {α : Type} (f : α → α → α) (x y en t : List Nat)
+    (ht : specBroadcast x en = some t) (X Y : (Nat → Nat) → α) :
+    binopT f t y (expandT x X) Y = binopT f x y X Y :=
+  expand_removal_value_sound f x y en t ht X Y
+
+/-- The guard alone does not make the Expand valid (x=[2], e=[3]) — which is why validity of the original is a hypothesis. -/
+theorem expand_guard_does_not_validate_expand :
+    expandRemovableConst (some [.known 2]) (some [.known 3]) [3] = true ∧ specBroadcast [2] [3] = none :=
+  guard_does_not_validate_expand
+
+end ExpandBinary
+
+/-! ## Rules that cannot fire on a valid model / thin fusion algebra -/
+section Thin
+open OV.C05.Unit OV.C05.More
+
+/-- `dropout_inference`: the pattern asks for an **attribute** `training_mode == False`; ONNX `Dropout` has no such attribute
+at any opset (it is an input from opset 12), so the rule fires only on nodes carrying that non-standard attribute with value 0,
+a single input and an unused mask. -/
+theorem dropout_inference_needs_training_mode_attribute (p : Dropout) (hz : p.zeroRule = false) (h : p.check = true) :
+    p.trainingModeAttr = some 0 ∧ p.nInputs = 1 ∧ p.maskUsed = false := by
+  unfold Dropout.check at h
+  simp only [hz, Bool.false_eq_true, if_false, Bool.and_eq_true, beq_iff_eq, Bool.not_eq_true'] at h
+  exact ⟨h.2, h.1.1, h.1.2⟩
+
+/-- Layer-norm / RMS-norm fusions, the two alternatives of the pattern over any field: `d * (1/s) = d / s` (Reciprocal+Mul vs
+Div) and `d ^ 2 = d * d` (Pow vs Mul) — the rest of the pattern is the operator's defining formula. -/
+theorem norm_pattern_alternatives {α : Type} [Field α] (d s : α) : d * s⁻¹ = d / s ∧ d ^ 2 = d * d := by
+  constructor
+  · rw [div_eq_mul_inv]
+  · ring
+
+/-- `LayerNormFusion.check` accepts only FLOAT / DOUBLE inputs with a one-element constant epsilon. -/
+theorem layer_norm_check_types (dt : Option Nat) (eps : Bool) (h : layerNormCheck dt eps = true) :
+    (dt = some 1 ∨ dt = some 11) ∧ eps = true := by
+  unfold layerNormCheck layerNormComputeTypes at h
+  simp only [Bool.and_eq_true] at h
+  refine ⟨?_, h.2⟩
+  cases dt with
+  | none => exact absurd h.1 (by simp)
+  | some t =>
+    have := h.1
+    simp only [List.contains_cons, List.contains_nil, Bool.or_false, Bool.or_eq_true, beq_iff_eq] at this
+    rcases this with h1 | h1 <;> simp [h1]
+
+end Thin
 
 /-! ## Non-vacuity: concrete instances satisfying the hypotheses of the theorems above -/
 section NonVacuity
